@@ -50,7 +50,10 @@ SPEC("pane.convert", "ConverterHandlers._process",
                                                     ite(mhas(handlers, ty) and slen(args) == 0, mget(handlers, ty), NotImplementedV)
                                                     and not callraises(sat(result, 0), ty, args, handlers=hs)))))), ["C18"], "mapping-form"),
               (lambda handlers, result: implies(not is_none(handlers) and not isinstance(handlers, dict) and not isinstance(handlers, Sequence),
-                                                slen(result) == 1 and sat(result, 0) is handlers), ["C18"], "callable-form")],
+                                                slen(result) == 1 and sat(result, 0) is handlers), ["C18"], "callable-form"),
+              # a mapping is wrapped in a NEW plain function on every call: function objects compare by identity, so two normalisations
+              # of a (possibly since modified) mapping never share a memoised converter (C10: handler sets are cache-key components)
+              (lambda handlers, result: implies(isinstance(handlers, dict), isinstance(sat(result, 0), function)), ["C10"], "mapping-wrapper-identity")],
      no_raise=["C18"])
 
 SPEC("pane.convert", "_make_converter_key_f",
